@@ -690,21 +690,24 @@ Definition elements_read (s : section) (want_parent : bool) : res (section * out
   if negb (count =? 0) && negb (count =? s_dim s) then RErr else
   ROk (s, [conn_all s] ++ parent_all s want_parent).
 
-(* RCurrent: the code as it is -- the cached start offsets are only used for the "double check" when the
-   STORED type is cgsize_t (although the cache always holds cgsize_t), and the check demands
-   count == ElementDataSize.  RFixed: the repair proposed in notes/C10.md -- the cache is used whatever the
-   stored type, and only count > ElementDataSize is an error (the node may hold reserved space). *)
-Inductive rvariant := RCurrent | RFixed.
+(* The "double check" of cg_poly_elements_read.
+   ROld: before /repo 98748ad -- the cached start offsets were only used when the STORED type is cgsize_t
+         (although the cache always holds cgsize_t), so NGON_n/NFACE_n sections stored as I4 failed once cached.
+   RCurrent: the code as it is -- the cache is used whatever the stored type; the check still demands
+         count == ElementDataSize, which fails when the node holds reserved space (defect
+         "poly-read-fails-reserved-slack-cached", notes/C10.md).
+   RFixed: the repair proposed in notes/C10.md -- only count > ElementDataSize is an error. *)
+Inductive rvariant := ROld | RCurrent | RFixed.
 
 Definition poly_elements_read (rv : rvariant) (s : section) (want_parent : bool) : res (section * out) :=
   let offset_data := match rv with
-                     | RCurrent => if s_hasoff s && is_size_t (s_dt s) then s_off_mem s else None
-                     | RFixed => if s_hasoff s then s_off_mem s else None
+                     | ROld => if s_hasoff s && is_size_t (s_dt s) then s_off_mem s else None
+                     | _ => if s_hasoff s then s_off_mem s else None
                      end in
   let num := s_r1 s - s_r0 s + 1 in
   let count := element_data_size (s_type s) num (s_conn_mem s) offset_data in
   if count <? 0 then RErr else
-  if negb (count =? 0) && (match rv with RCurrent => negb (count =? s_dim s) | RFixed => s_dim s <? count end)
+  if negb (count =? 0) && (match rv with RFixed => s_dim s <? count | _ => negb (count =? s_dim s) end)
   then RErr else
   let offs := if s_hasoff s then
                 [match s_off_mem s with
@@ -931,8 +934,9 @@ Definition step_gen (pv : pvariant) (rv : rvariant) (st : state) (o : op) : res 
 (* THE ONE-LINE SWITCHES: which variant the code in /repo has.
    impl_pvariant: PFixed since /repo commit 4b28a57 (parent rows kept in place when a partial write extends a
    section); PCurrent stays expressible for the historical defect (C10_parent_refuted).
-   impl_rvariant: RCurrent = cg_poly_elements_read as it is (defect "poly-read-fails-i4-cached", notes/C10.md);
-   set to RFixed once that repair is applied. *)
+   impl_rvariant: RCurrent = cg_poly_elements_read as it is since /repo 98748ad (defect
+   "poly-read-fails-reserved-slack-cached" still present, notes/C10.md); set to RFixed once that repair is applied;
+   ROld stays expressible for the historical defect "poly-read-fails-i4-cached". *)
 Definition impl_pvariant : pvariant := PFixed.
 Definition impl_rvariant : rvariant := RCurrent.
 
